@@ -1027,6 +1027,21 @@ class Module(ABC):
         # Override `comp_index` to just be a consecutive list.
         all_nodes["global_comp_index"] = np.arange(len(all_nodes))
 
+        # Groups store compartment indices. Shift the indices of the compartments behind
+        # the modified branch, and let all new compartments inherit the group
+        # membership of the branch.
+        index_shift = ncomp - num_previous_ncomp
+        end_idx = start_idx + num_previous_ncomp
+        for group_name, group_inds in self.base.groups.items():
+            group_inds = np.asarray(group_inds)
+            new_group_inds = [
+                group_inds[group_inds < start_idx],
+                group_inds[group_inds >= end_idx] + index_shift,
+            ]
+            if np.any((group_inds >= start_idx) & (group_inds < end_idx)):
+                new_group_inds.append(np.arange(start_idx, start_idx + ncomp))
+            self.base.groups[group_name] = np.sort(np.concatenate(new_group_inds))
+
         # Update compartment structure arguments.
         ncomp_per_branch[branch_indices] = ncomp
         ncomp = int(np.max(ncomp_per_branch))
